@@ -1903,6 +1903,17 @@ pub mod vlive {
             }
         }
 
+        /// offer bytes to the transport without waiting: how many it took
+        pub fn write_some(&mut self, data: &[u8]) -> usize {
+            match self.wr.as_mut() {
+                Some(w) => match w.write(data).now_or_never() {
+                    Some(Ok(n)) => n,
+                    _ => 0,
+                },
+                None => 0,
+            }
+        }
+
         /// like [`poll`](Self::poll), but takes at most `max` bytes (a slow reader)
         pub fn poll_some(&mut self, max: usize) {
             let mut buf = vec![0u8; max.max(1)];
